@@ -210,7 +210,7 @@ func runCase(jc jcase) {
 	nEmitted, nInit := 0, 0
 
 	// ---- the oracle's own bookkeeping (reference values of the three quantities of the property)
-	refOwed := map[common.Address]*big.Int{}      // total traffic owed per peer
+	refOwed := map[common.Address]*big.Int{}       // total traffic owed per peer
 	lastDelivered := map[common.Address]*big.Int{} // payout of the last cheque delivered per peer
 	lastEmitted := map[common.Address]*big.Int{}
 	get := func(m map[common.Address]*big.Int, a common.Address) *big.Int {
@@ -227,6 +227,20 @@ func runCase(jc jcase) {
 		nLog, nNot := len(e.Proto.Log), len(e.Notifies)
 		var err error
 		var coqOp string
+		// persisted served / consumed traffic totals (what TotalSent / TotalReceived are restored from after a restart)
+		storedTotals := func() map[common.Address][2]*big.Int {
+			m := map[common.Address][2]*big.Int{}
+			for _, a := range addrs {
+				t, _ := e.CS.GetTransferTraffic(a)
+				r, _ := e.CS.GetRetrieveTraffic(a)
+				m[a] = [2]*big.Int{t, r}
+			}
+			return m
+		}
+		var totalsBefore map[common.Address][2]*big.Int
+		if o.Op == "cash" {
+			totalsBefore = storedTotals()
+		}
 		switch o.Op {
 		case "hs":
 			a := addrs[o.Addr]
@@ -354,6 +368,21 @@ func runCase(jc jcase) {
 		coqOps = append(coqOps, hx.CoqPair(coqOp, hx.CoqTuple(hx.CoqN(cl), emit, notify, pay.CoqZBig(avail))))
 		after := snap(e)
 
+		// O0: a cash-out (whatever its receipt) records chain state only: the persisted served / consumed traffic
+		// totals, from which the totals are restored after a restart, are exactly what they were
+		if o.Op == "cash" {
+			for a, v := range storedTotals() {
+				run.OracleChecked(2)
+				if v[0].Cmp(totalsBefore[a][0]) != 0 {
+					run.Violate(hx.Violation{Sig: "cash:served-total-overwritten", Detail: fmt.Sprintf("op %d: persisted transferred-traffic total of %s was %v, is %v after the cash-out receipt (a restart would restore TotalSent from it)", i, a.Hex(), totalsBefore[a][0], v[0]),
+						Case: jc, Impl: v[0].String(), Want: totalsBefore[a][0].String()})
+				}
+				if v[1].Cmp(totalsBefore[a][1]) != 0 {
+					run.Violate(hx.Violation{Sig: "cash:consumed-total-overwritten", Detail: fmt.Sprintf("op %d: persisted retrieved-traffic total of %s was %v, is %v after the cash-out receipt", i, a.Hex(), totalsBefore[a][1], v[1]),
+						Case: jc, Impl: v[1].String(), Want: totalsBefore[a][1].String()})
+				}
+			}
+		}
 		// ---------------- oracle (the property statement on the implementation) ----------------
 		chainConsulted := o.Op == "refresh" || o.Op == "restart" || o.Op == "cash"
 		// O1: only operations that ask the chain may change a "cashed by the peer" record; in particular issuing never does
